@@ -57,8 +57,9 @@ fn account(sum: &mut Summary, scn: &Scenario, o: &Outcome) {
     sum.count("quiche_retransmissions", g.q.retrans);
     sum.count("quiche_stream_retrans_bytes", g.q.stream_retrans_bytes);
     sum.count("net_datagrams", g.net.datagrams[0] + g.net.datagrams[1]);
-    sum.count("net_dropped_loss", g.net.dropped[0] + g.net.dropped[1] - g.net.dropped_mtu[0] - g.net.dropped_mtu[1]);
+    sum.count("net_dropped_loss", g.net.dropped[0] + g.net.dropped[1] - g.net.dropped_mtu[0] - g.net.dropped_mtu[1] - g.net.dropped_peer_limit);
     sum.count("net_dropped_mtu", g.net.dropped_mtu[0] + g.net.dropped_mtu[1]);
+    sum.count("s2n_datagrams_over_peer_udp_limit", g.net.dropped_peer_limit);
     sum.count("net_duplicated", g.net.duplicated[0] + g.net.duplicated[1]);
     sum.max("net_max_datagram_to_quiche", g.net.max_len[1] as i64);
     sum.max("net_max_datagram_to_s2n", g.net.max_len[0] as i64);
@@ -167,6 +168,7 @@ fn main() {
         _ => ClockMode::Virtual,
     };
     let replay = args.get("replay").cloned();
+    scen::OVERSIZE_PER_1024.store(arg_u64(&args, "oversize-per-1024", 64), std::sync::atomic::Ordering::Relaxed);
     let mut sum = Summary::default();
 
     if let Some(path) = &replay {
